@@ -333,6 +333,25 @@ def execute(graphs, op):
         o = dict(op)
     name = o.pop('op')
     g = graphs[o.pop('g')]
+    handed = []
+
+    def dict_(d):
+        # a dictionary argument as the caller holds it: it must come back from the call as it went in
+        c = dict(d)
+        handed.append((c, copy.deepcopy(c)))
+        return c
+    try:
+        return _execute(graphs, g, name, o, dict_)
+    finally:
+        for c, was in handed:
+            if c != was:
+                ARG_CHANGED.append({'op': name, 'argument_before': was, 'argument_after': {k: repr(v)[:80] for k, v in c.items()}})
+
+
+ARG_CHANGED = []
+
+
+def _execute(graphs, g, name, o, dict):
     try:
         if name == 'add_node':
             r = g.add_node(node_id=o['nid'], label=o['label'], props=dict(o['props']) if o['props'] else None)
